@@ -7,7 +7,7 @@ use crate::{for_both, hx, Ctx, Tier};
 use blsful::*;
 use serde_json::json;
 
-pub const RULE: &str = "EXHAUSTIVE (t,n) for n<=4 (quick) / n<=5 (thorough) x every subset of every size x 3 ciphertext schemes x 2 groups, plus (2,9),(5,9) and in the thorough tier the corners (2,255),(255,255) with subsets of size t-1,t,n. Per split: every participant's decryption share must verify against its own public-key share and the ciphertext (all 3 schemes are required cells); mismatch matrix share i x key-share j x {same ciphertext, another ciphertext to the same key, same (u,v,w) under another scheme label}; decrypt_with_shares(subset) and SignCryptDecryptionKey::from_shares(subset).decrypt(ct): >=t distinct shares must return the message, <t must not; the reference interpolates u*sk from the decryption-share BYTES and opens the ciphertext. Distinct by (suite,scheme,t,n,subset,path).";
+pub const RULE: &str = "EXHAUSTIVE (t,n) for n<=4 (quick) / n<=5 (thorough) x every subset of every size x 3 ciphertext schemes x 2 groups, plus (2,9),(5,9),(2,255) and in the thorough tier (255,255),(16,32) with subsets of size t-1,t,n. Per split: every participant's decryption share must verify against its own public-key share and the ciphertext (all 3 schemes are required cells); mismatch matrix share i x key-share j x {same ciphertext, another ciphertext to the same key, same (u,v,w) under another scheme label}; decrypt_with_shares(subset) and SignCryptDecryptionKey::from_shares(subset).decrypt(ct): >=t distinct shares must return the message, <t must not; the reference interpolates u*sk from the decryption-share BYTES and opens the ciphertext. Distinct by (suite,scheme,t,n,subset,path).";
 
 pub fn run(ctx: &mut Ctx) {
     for_both!(run_suite, ctx);
@@ -33,9 +33,10 @@ fn run_suite<C: Suite>(ctx: &mut Ctx) {
                 }
             }
         }
-        let mut extra = vec![(2usize, 9usize), (5, 9)];
+        // (2,255): the largest identifier a share can carry takes part in every quick run
+        let mut extra = vec![(2usize, 9usize), (5, 9), (2, 255)];
         if ctx.tier == Tier::Thorough {
-            extra.extend([(2, 255), (255, 255), (16, 32)]);
+            extra.extend([(255, 255), (16, 32)]);
         }
         for (t, nn) in extra {
             g += 1;
@@ -83,7 +84,11 @@ fn one<C: Suite>(ctx: &mut Ctx, g: u64, scheme: Scheme, t: usize, nn: usize, exh
     };
     // shares verify against own key share and ciphertext; fail otherwise
     let m = nn.min(5);
-    for i in 0..m {
+    let mut idxs: Vec<usize> = (0..m).collect();
+    if nn > m {
+        idxs.push(nn - 1); // the participant with the largest identifier
+    }
+    for i in idxs.clone() {
         let own = ctx.guard("SignDecryptionShare::verify", || d("verify"), || ds[i].verify(&pks[i], &ct).is_ok());
         let Some(own) = own else { continue };
         ctx.expect(own, &format!("C12/honest-share-rejected/{n}/{sn}"), || {
@@ -95,7 +100,7 @@ fn one<C: Suite>(ctx: &mut Ctx, g: u64, scheme: Scheme, t: usize, nn: usize, exh
         if !own {
             continue; // negative cases below would be vacuous
         }
-        for j in 0..m {
+        for j in idxs.clone() {
             if i == j {
                 continue;
             }
@@ -141,12 +146,19 @@ fn one<C: Suite>(ctx: &mut Ctx, g: u64, scheme: Scheme, t: usize, nn: usize, exh
             gen::shuffle(&mut all, &mut rng);
             v.push(all.into_iter().take(size).collect());
         }
+        // the participants with the smallest and the largest identifier together
+        v.push(vec![nn - 1, 0]);
+        if t <= 3 && nn >= 3 {
+            v.push(vec![nn - 2, nn - 1, 0]);
+        }
         v
     };
     for sub in subsets {
         let mut ord = sub.clone();
         if sub.len() > 2 && gen::below(&mut rng, 2) == 1 {
             gen::shuffle(&mut ord, &mut rng);
+        } else if sub.len() == 2 && gen::below(&mut rng, 2) == 1 {
+            ord.reverse();
         }
         let sel: Vec<SignDecryptionShare<C>> = ord.iter().map(|i| ds[*i].clone()).collect();
         let enough = ord.len() >= t;
